@@ -44,6 +44,17 @@ THEOREMS = [
     "Typedpy.C18.statement_deep_partial",
     "Typedpy.C18.deep_path_examples",
     "Typedpy.C18.deep_deser_head_examples",
+    "Typedpy.C18.firstBad_spec",
+    "Typedpy.C18.badOf_spec",
+    "Typedpy.C18.locSeqLike_cases",
+    "Typedpy.C18.firstBadEntry_spec",
+    "Typedpy.C18.locSet_cases",
+    "Typedpy.C18.locMap_cases",
+    "Typedpy.C18.points_here",
+    "Typedpy.C18.locate_sound",
+    "Typedpy.C18.locateZip_sound",
+    "Typedpy.C18.sites_point_at_rejections",
+    "Typedpy.C18.locate_sound_example",
 ]
 RULE = ("flat classes (1..5 fields: Integer/Number/Float incl. sign variants, String, Boolean, Enum, and Array/Deque/"
         "Set/Tuple/Map over them) from the type-directed declaration generator; per class a valid argument set, then "
